@@ -168,7 +168,9 @@ func runMembership(c *Ctx, plan any) {
 		}
 		id, _ := rm.M["id"].(string)
 		c.Count("events.user_"+rm.Kind, 1)
-		if sc.group == "" && (sc.lastJoined() == "leave" || sc.lastJoined() == "fail") {
+		// (a delete received while outside is a no-op in the reference client:
+		// its list is empty; only add and change can plant a ghost)
+		if sc.group == "" && (sc.lastJoined() == "leave" || sc.lastJoined() == "fail") && rm.Kind != "delete" {
 			outside[sc] = append(outside[sc], pendingEv{id, rm.Kind, rm.Stamp})
 		}
 		if sc.group != "" && tried[id] != nil && !tried[id][sc.group] {
